@@ -15,6 +15,7 @@ var (
 	verifWrapListenerHook func(s *Server, ln net.Listener) net.Listener
 	verifDialRESPHook     func(address string, timeout time.Duration) (net.Conn, error, bool)
 	verifPointHook        func(s *Server, name string)
+	verifFaultHook        func(s *Server, name string) error
 )
 
 func verifNewLock(opts *Options) rwlocker {
@@ -42,4 +43,12 @@ func verifPoint(s *Server, name string) {
 	if verifPointHook != nil {
 		verifPointHook(s, name)
 	}
+}
+
+// verifFault lets the harness fail the I/O operation that follows the call.
+func verifFault(s *Server, name string) error {
+	if verifFaultHook != nil {
+		return verifFaultHook(s, name)
+	}
+	return nil
 }
